@@ -449,6 +449,13 @@ def rand_expr(rng, depth, budget, want_bool=True):
     return call(g, args, "b", local)
 
 
+def rand_cond(rng, bud):
+    """conditions are never literals: `if True` / `while True` make code unreachable, and unreachable
+    basic blocks are dropped before any check"""
+    e = rand_expr(rng, 2, bud)
+    return B if e == LIT else e
+
+
 def rand_stmt(rng, depth, req_hint):
     r = rng.random()
     bud = {"q": 0, "elem": 0, "whole": False}
@@ -471,8 +478,8 @@ def rand_stmt(rng, depth, req_hint):
     if r < 0.62:
         return ("a", rand_expr(rng, 2, bud))
     if r < 0.85:
-        return ("i", rand_expr(rng, 2, bud), rand_block(rng, depth - 1, req_hint, 2), rand_block(rng, depth - 1, req_hint, 1) if rng.random() < 0.5 else [])
-    return ("w", rand_expr(rng, 2, bud), rand_block(rng, depth - 1, req_hint, 2))
+        return ("i", rand_cond(rng, bud), rand_block(rng, depth - 1, req_hint, 2), rand_block(rng, depth - 1, req_hint, 1) if rng.random() < 0.5 else [])
+    return ("w", rand_cond(rng, bud), rand_block(rng, depth - 1, req_hint, 2))
 
 
 def rand_block(rng, depth, req_hint, maxlen=3):
@@ -592,7 +599,7 @@ def cases(ctx):
         nrand = 240
     else:
         progs += g
-        nrand = 4000
+        nrand = 14000
         ctx.extra["exhaustive"] = True
         ctx.extra["exhaustive_note"] = (
             f"full grid: {len(contexts())} contexts (10 decorator forms incl. unitary=True, 13 modifier lists) x 8 callee "
